@@ -16,7 +16,7 @@ TECHNIQUE = "Hypothesis-seeded generated macro programs compared (a) metamorphic
 RULE = (
     "programs with 1-3 macro definitions (0-3 parameters; bodies with data, sized instructions, local labels and branches to them, nested calls, .if-terminated recursion, {{code}} splices) and applications "
     "at top level, in blocks, named scopes, loops and conditionals; arguments are literals, expressions, := / = constants, backward and forward labels, names that coincide with a parameter name, and code blocks.  "
-    "Oracle 1 (model-free): every application outside macro bodies is replaced by `t_i :=|= arg_i` + `{ q_i :=|= t_i ; body[p->q] }`; twin and original must give identical writes and labels.  Oracle 2: "
+    "Oracle 1 (model-free): every application outside macro bodies is replaced by `t_i :=|= arg_i` + `{ p_i :=|= t_i ; body }`; twin and original must give identical writes and labels.  Oracle 2: "
     "vlib/model/refasm.py.  Oracle 3: undefined macro / too few arguments => rejected.  Non-trivial = >=2 applications and one of {local label in a body, forward-label argument, argument naming a parameter, "
     "code-block argument, nested call}; distinct by case hash."
 )
@@ -25,7 +25,7 @@ LEVEL_NOTE = "Trusted: vlib/twins.py inliner (model-free relation), vlib/model/r
 DESIGN_REF = "DESIGN.md §3 C09"
 ASSUMPTIONS = ["twin binding uses := when the argument only mentions expansion-time names, = otherwise"]
 
-PROFILE = progen.Profile(param_named_consts=True, incbin=False, ascii=False, orgs=True, reloc_ram=False, scopes=True, max_stmts=12)
+PROFILE = progen.Profile(param_named_consts=True, incbin=False, ascii=False, orgs=True, reloc_ram=False, scopes=True, max_stmts=12, call_weight=8, min_calls=2)
 
 
 def selftest() -> None:
